@@ -24,6 +24,7 @@ type textCase struct {
 	Field  string `json:"field"`
 	Class  string `json:"class"`
 	Follow string `json:"follow"`
+	Pieces bool   `json:"pieces"`
 }
 
 func words(rng *rand.Rand, n int) string {
@@ -183,6 +184,9 @@ func (t *textRunner) attempt(c textCase, s string, dir string, rng *rand.Rand) (
 		}
 		s = strings.ReplaceAll(strings.ReplaceAll(s, "@PRUNED@", pruned), "@LIVE@", live)
 	}
+	if c.Pieces {
+		st = &Store{Root: st.Root, Bin: st.Bin, StdinPieces: 3}
+	}
 	logStart, _ := os.ReadFile(st.LogPath())
 	other := "plain " + words(rng, 2)
 	title, body := other, other
@@ -313,6 +317,8 @@ func (t *textRunner) attempt(c textCase, s string, dir string, rng *rand.Rand) (
 			return "different"
 		case got == s:
 			return "equal"
+		case c.Cmd == "set" && ((c.Field == "title" && got == "before "+other) || (c.Field == "body" && got == "before body")):
+			return "ignored" // the item still shows what it had before the request
 		case got == strings.TrimSpace(s):
 			return "trimmed"
 		default:
